@@ -1,6 +1,7 @@
 (* C09 — study configs, trials and measurements survive the wire format unchanged.  Statements only.
    Gen/EnumMaps.v is regenerated from proto_converters.py (dict literals, if-chains) and the .proto enum numbers. *)
 From VZ Require Import Base.Prelude Model.Wire Gen.EnumMaps Model.WireConv Proofs.WireP Model.WireTrial Proofs.WireTrialP.
+From VZ Require Model.WireIds.
 
 (* ParameterConfig (any nesting depth, all four kinds, defaults incl. falsy ones, external types, LINEAR/LOG/REVERSE_LOG):
    to proto and back is the identity on every well-formed config (wf = what ParameterConfig.factory produces) *)
@@ -64,3 +65,16 @@ Proof.
   - exists [[117%N]]. split; reflexivity.
   - exists [2%Z]. split; reflexivity.
 Qed.
+
+(* the trial ids of an EarlyStopRequest: with the decoder the source uses today (Gen/EnumMaps.v, regenerated at every run) a
+   request for all trials (None) and every request naming trials come back as they were; the empty set is the one value the
+   wire cannot carry (it shares its encoding with None), and reading the field as it is would turn "all Trials" into "no Trial" *)
+Theorem C09_source_early_stop_request_ids_roundtrip : forall o, o <> Some [] ->
+  WireIds.dec_ids src_ids_decoder (WireIds.enc_ids o) = o.
+Proof. exact WireIds.ids_roundtrip. Qed.
+Print Assumptions C09_source_early_stop_request_ids_roundtrip.
+
+Theorem C09_early_stop_request_ids_read_as_is_refuted :
+  WireIds.dec_ids WireIds.IdsAsIs (WireIds.enc_ids None) <> None /\ WireIds.enc_ids None = WireIds.enc_ids (Some []).
+Proof. split; [discriminate|reflexivity]. Qed.
+Print Assumptions C09_early_stop_request_ids_read_as_is_refuted.
